@@ -470,3 +470,169 @@ def stodDemo : Bytes → Option AlphaArg := fun s => if s.isEmpty then none else
 def run (args : List String) : CliRun := cliMain ⟨8, 8⟩ stodDemo algDemo (args.map ofStr)
 
 end Pc.Cli
+
+namespace Pc.Cli
+open Pc.Calc
+
+/-! ### the settings a command line leaves behind (C20) -/
+
+/-- effect of one item on the library's global settings σ (none for numbers, main options, `--time`) -/
+def itemEffect (hw : ApiHw) (stod : Bytes → Option AlphaArg) (σ : ApiState) (it : Item) : ApiState :=
+  match applyItem hw stod { σ := σ } it with
+  | .cont s' => s'.σ
+  | _ => σ
+
+theorem applyItem_σ {hw stod} {s : PState} {it : Item} {s' : PState} (h : applyItem hw stod s it = .cont s') :
+    s'.σ = itemEffect hw stod s.σ it := by
+  rcases it with ⟨str, opt, val, id⟩
+  cases id <;> simp only [applyItem, itemEffect] at h ⊢ <;> (try split at h) <;> (try split at h) <;>
+    first | (cases h; done) | (cases h; simp_all; done) | simp_all
+
+/-- σ after the option loop = the effects of the items, in argv order, on the state the loop started with -/
+theorem parseLoopIn_σ (tbl : List (String × OptId × IsParam)) (hw : ApiHw) (stod : Bytes → Option AlphaArg) :
+    ∀ (fuel : Nat) (s0 : PState) (argv : List Bytes) (s : PState), parseLoopIn tbl hw stod fuel s0 argv = .ok s →
+      s.σ = (itemsIn tbl fuel argv).foldl (itemEffect hw stod) s0.σ := by
+  intro fuel
+  induction fuel with
+  | zero =>
+    intro s0 argv s h
+    cases argv with
+    | nil => simp only [parseLoopIn] at h; cases h; simp [itemsIn]
+    | cons a r => simp [parseLoopIn] at h
+  | succ n ih =>
+    intro s0 argv s h
+    cases argv with
+    | nil => simp only [parseLoopIn] at h; cases h; simp [itemsIn]
+    | cons str rest =>
+      simp only [parseLoopIn] at h
+      split at h
+      · cases h
+      · rename_i it rest' hp
+        split at h
+        · cases h
+        · cases h
+        · rename_i s1 ha
+          have hit : itemsIn tbl (n + 1) (str :: rest) = it :: itemsIn tbl n rest' := by simp [itemsIn, hp]
+          rw [hit, List.foldl_cons, ← applyItem_σ ha]
+          exact ih s1 rest' s h
+
+theorem parseOptions_σ {hw stod argv o} (h : parseOptions hw stod argv = .ok o) :
+    o.σ = (items argv).foldl (itemEffect hw stod) ApiState.init := by
+  unfold parseOptions at h
+  split at h
+  · cases h
+  · split at h
+    · cases h
+    · cases h
+    · rename_i s hs
+      have := parseLoopIn_σ optTable hw stod argv.length {} argv s hs
+      split at h
+      · cases h
+      · rename_i o' hf
+        cases h
+        unfold finishParse at hf
+        split at hf
+        · cases hf
+        · split at hf
+          · cases hf
+          · cases hf; exact this
+
+end Pc.Cli
+
+namespace Pc.Cli
+open Pc.Calc
+
+/-- proof of `Pc.C13Cli.cli_exact_or_error` (stated and documented there) -/
+theorem cliMain_exact_or_error (hw : ApiHw) (stod : Bytes → Option AlphaArg) (alg : CliAlg) (argv : List Bytes) :
+    let r := cliMain hw stod alg argv
+    (r.exit = 0 ∨ r.exit = 1) ∧
+    (r.err ≠ none → r.exit = 1 ∧ ∀ v, OutItem.result v ∉ r.stdout) ∧
+    (∀ v, OutItem.result v ∈ r.stdout →
+      r.exit = 0 ∧ r.err = none ∧ (mainItems (items argv)).length ≤ 1 ∧
+      ∃ d x cfg, dispatchOf (selected (items argv)) = some d ∧
+        (numberValues (items argv)).head? = some x ∧
+        (d.narrow = true → InInt64 x) ∧
+        ((d.second = false ∨ d.narrow = false) → alg cfg ⟨d.fn, x, none, d.threads⟩ = some v) ∧
+        (d.second = true → d.narrow = true → selected (items argv) = .phi ∧
+          ∃ a, (numberValues (items argv))[1]? = some a ∧ InInt64 a ∧ alg cfg ⟨d.fn, x, some a, d.threads⟩ = some v)) := by
+  intro r
+  show (r.exit = 0 ∨ r.exit = 1) ∧ _
+  have hr : r = cliMain hw stod alg argv := rfl
+  clear_value r
+  unfold cliMain at hr
+  split at hr
+  · -- parse error
+    subst hr; exact ⟨Or.inr rfl, fun _ => ⟨rfl, by simp⟩, by simp⟩
+  · -- help
+    rename_i c hp
+    have hc : c = 0 ∨ c = 1 := by
+      unfold parseOptions at hp
+      split at hp
+      · cases hp; exact Or.inr rfl
+      · split at hp
+        · cases hp
+        · rename_i e hl
+          cases hp
+          -- help(0) is the only other call
+          have : ∀ fuel s l, parseLoopIn optTable hw stod fuel s l = .exit (.help c) → c = 0 := by
+            intro fuel
+            induction fuel with
+            | zero => intro s l h; cases l <;> simp [parseLoopIn] at h
+            | succ n ih =>
+              intro s l h
+              cases l with
+              | nil => simp [parseLoopIn] at h
+              | cons a t =>
+                simp only [parseLoopIn] at h
+                split at h
+                · cases h
+                · split at h
+                  · cases h
+                  · rename_i e' ha
+                    cases h
+                    unfold applyItem at ha
+                    split at ha <;> first | (cases ha; done) | (cases ha; rfl) | skip
+                    all_goals (split at ha <;> first | (cases ha; done) | skip)
+                    all_goals (split at ha <;> cases ha)
+                  · exact ih _ _ h
+          exact Or.inl (this _ _ _ hl)
+        · split at hp <;> cases hp
+    subst hr
+    exact ⟨hc, fun h => absurd rfl h, by simp⟩
+  · subst hr; exact ⟨Or.inl rfl, fun h => absurd rfl h, by simp⟩
+  · subst hr; exact ⟨Or.inl rfl, fun h => absurd rfl h, by simp⟩
+  · rename_i o hp
+    obtain ⟨_, p1, p2, p3, p4, p5, _⟩ := parseOptions_ok hp
+    split at hr
+    · subst hr; exact ⟨Or.inr rfl, fun _ => ⟨rfl, by simp⟩, by simp⟩
+    · -- no case in the switch: impossible
+      rename_i hm
+      obtain ⟨d, hd⟩ := dispatchOf_total o.option p3
+      rw [mainCall_none hm] at hd
+      cases hd
+    · rename_i call d hm
+      obtain ⟨m1, m2, m3, m4⟩ := mainCall_some hm
+      split at hr
+      · subst hr
+        refine ⟨Or.inr rfl, fun _ => ⟨rfl, ?_⟩, ?_⟩
+        · intro v; split <;> simp
+        · intro v hv; exfalso; revert hv; split <;> simp
+      · rename_i res ha
+        subst hr
+        refine ⟨Or.inl rfl, fun h => absurd rfl h, ?_⟩
+        intro v hv
+        have hv' : v = res := mem_printResult hv
+        subst hv'
+        refine ⟨rfl, rfl, p1, d, o.x, o.σ.config hw, by rw [← p2]; exact m1, p4, m3, ?_, ?_⟩
+        · intro hs
+          have : (d.narrow && d.second) = false := by
+            rcases hs with hs | hs <;> simp [hs]
+          rw [m2, this] at ha
+          exact ha
+        · intro hs hn
+          have hphi : o.option = .phi := dispatchOf_second _ (by rw [m1]; simp [hs])
+          refine ⟨by rw [← p2]; exact hphi, o.a, p5 hphi, m4 hn hs, ?_⟩
+          rw [m2] at ha
+          simpa [hs, hn] using ha
+
+end Pc.Cli
